@@ -1,6 +1,7 @@
 package chainsim
 
 import (
+	"strings"
 	"crypto/sha256"
 	"fmt"
 
@@ -33,14 +34,19 @@ type Op struct {
 
 var collidingDSeq = []uint64{1, 12, 256, 257, 65536, 65537, 1 << 32, 1<<32 + 1, 2, 120, 3}
 
+// the last two differ from others only in the case of the key (used when attrs.case-variants is set);
+// an empty value is legal on chain (only keys are validated)
 var attrUniverse = []types.Attribute{{Key: "region", Value: "us"}, {Key: "region", Value: "eu"}, {Key: "tier", Value: "gold"}, {Key: "gpu", Value: "yes"},
-	{Key: "Region", Value: "us"}, {Key: "TIER", Value: "gold"}}
+	{Key: "gpu", Value: ""}, {Key: "Region", Value: "us"}, {Key: "TIER", Value: "gold"}}
 
 type gen struct {
 	w    *World
 	s    *Snap
 	bias map[string]int
 	vctr int
+	// busy-provider mode (drawn per run where the bias table has "busy"): one provider collects several
+	// active leases at a time - deployments, its bids and leases are favoured, closing is rare
+	busy *Actor
 }
 
 func (g *gen) pick(list []string, label string) (string, bool) {
@@ -68,7 +74,7 @@ func (g *gen) attrs(label string) types.Attributes {
 	seen := map[string]bool{}
 	n := r.Choose(4, label+".n")
 	for i := 0; i < n; i++ {
-		nU := 4
+		nU := 5
 		if g.bias["attrs.case-variants"] > 0 {
 			nU = len(attrUniverse)
 		}
@@ -124,7 +130,7 @@ var unitPrices = []int64{1, 2, 3, 5, 7, 10, 1000, 10000000}
 func (g *gen) groupSpec(name string) dtypes.GroupSpec {
 	r := g.w.R
 	gs := dtypes.GroupSpec{Name: name}
-	if r.Bool(45, "grp.hasreq") {
+	if r.Bool(45+g.bias["grp.hasreq"], "grp.hasreq") {
 		gs.Requirements.Attributes = g.attrs("grp.req")
 	}
 	auds := g.w.ActorsOf("auditor")
@@ -339,10 +345,18 @@ func (g *gen) createBid() *Op {
 	r := g.w.R
 	o := g.pickOrder(func(x mtypes.Order) bool { return x.State == mtypes.OrderOpen }, "cb")
 	var p *Actor
-	if r.Bool(4, "cb.selfbid") {
+	if g.busy != nil && r.Bool(75, "cb.busy") {
+		p = g.busy
+	}
+	selfbid := false
+	if r.Bool(4+g.bias["cb.selfbid"], "cb.selfbid") {
 		p = g.w.ActorByAddr(o.Owner)
+		selfbid = p != nil
 	}
 	if p == nil {
+		p = g.actor("provider", "cb.prov")
+	}
+	if p == g.busy && p.Bech == o.Owner {
 		p = g.actor("provider", "cb.prov")
 	}
 	max := int64(10)
@@ -370,6 +384,10 @@ func (g *gen) createBid() *Op {
 		price = sdk.NewInt64Coin(Denom, max*3+1)
 	}
 	msg := mtypes.NewMsgCreateBid(o, p.Addr, price, g.deposit(g.w.Knobs.BidMinDeposit, "cb.deposit"))
+	if selfbid && r.Bool(50, "cb.selfbid.uppercase") {
+		// the same account in the other legal spelling of its address
+		msg.Provider = strings.ToUpper(msg.Provider)
+	}
 	return &Op{Kind: "CreateBid", Msg: msg, Required: p}
 }
 
@@ -381,6 +399,19 @@ func minI64(a, b int64) int64 {
 }
 
 func (g *gen) closeBid() *Op {
+	// a losing bidder closing its lost bid while the winner's lease is active
+	if g.w.R.Bool(10+g.bias["clb.lost"], "clb.lost") {
+		var lost []string
+		for _, k := range keysOf(g.s.Bids) {
+			if b := g.s.Bids[k]; b.State == mtypes.BidLost {
+				lost = append(lost, k)
+			}
+		}
+		if len(lost) > 0 {
+			id := g.s.Bids[lost[g.w.R.Choose(len(lost), "clb.lost.which")]].BidID
+			return &Op{Kind: "CloseBid", Msg: mtypes.NewMsgCloseBid(id), Required: g.w.ActorByAddr(id.Provider)}
+		}
+	}
 	id := g.pickBid(func(x mtypes.Bid) bool { return x.State == mtypes.BidOpen || x.State == mtypes.BidActive }, "clb")
 	return &Op{Kind: "CloseBid", Msg: mtypes.NewMsgCloseBid(id), Required: g.w.ActorByAddr(id.Provider)}
 }
@@ -410,7 +441,7 @@ func (g *gen) createProvider() *Op {
 			break
 		}
 	}
-	if p == nil || r.Bool(10, "cp.any") {
+	if p == nil || r.Bool(10+g.bias["cp.any"], "cp.any") {
 		p = g.anyActor("cp.actor")
 	}
 	msg := ptypes.NewMsgCreateProvider(p.Addr, "https://"+p.Name+".example.com", g.richAttrs("cp.attrs"))
@@ -421,11 +452,59 @@ func (g *gen) createProvider() *Op {
 }
 
 func (g *gen) updateProvider() *Op {
+	r := g.w.R
 	p := g.actor("provider", "up.prov")
-	if g.w.R.Bool(8, "up.any") {
+	if r.Bool(8, "up.any") {
 		p = g.anyActor("up.actor")
 	}
-	msg := ptypes.NewMsgUpdateProvider(p.Addr, "https://"+p.Name+".example.org", g.richAttrs("up.attrs"))
+	attrs := g.richAttrs("up.attrs")
+	if r.Bool(g.bias["up.busiest"], "up.busiest") {
+		// the provider with the most active leases gives up one attribute that some (not necessarily
+		// every) leased order asks for
+		n := map[string]int{}
+		for _, l := range g.s.Leases {
+			if l.State == mtypes.LeaseActive {
+				n[l.LeaseID.Provider]++
+			}
+		}
+		best := ""
+		for _, k := range keysOf(n) {
+			if best == "" || n[k] > n[best] {
+				best = k
+			}
+		}
+		if a := g.w.ActorByAddr(best); a != nil {
+			p = a
+			if cur, ok := g.s.Providers[best]; ok {
+				var needed []string
+				seen := map[string]bool{}
+				for _, k := range keysOf(g.s.Leases) {
+					l := g.s.Leases[k]
+					if l.State != mtypes.LeaseActive || l.LeaseID.Provider != best {
+						continue
+					}
+					if o, ok := g.s.Orders[oid(l.LeaseID.OrderID())]; ok {
+						for _, ra := range o.Spec.Requirements.Attributes {
+							if !seen[ra.Key] {
+								seen[ra.Key] = true
+								needed = append(needed, ra.Key)
+							}
+						}
+					}
+				}
+				if len(needed) > 0 {
+					drop := needed[r.Choose(len(needed), "up.drop")]
+					attrs = nil
+					for _, a := range cur.Attributes {
+						if a.Key != drop {
+							attrs = append(attrs, a)
+						}
+					}
+				}
+			}
+		}
+	}
+	msg := ptypes.NewMsgUpdateProvider(p.Addr, "https://"+p.Name+".example.org", attrs)
 	return &Op{Kind: "UpdateProvider", Msg: msg, Required: p}
 }
 
@@ -623,6 +702,18 @@ func (g *gen) weights(base map[string]int) []int {
 			damp(nProvReg == 0)
 		case "SignProviderAttributes", "DeleteProviderAttributes":
 			damp(len(g.w.ActorsOf("auditor")) == 0)
+		}
+		if g.busy != nil {
+			switch k {
+			case "CloseDeployment", "CloseGroup", "PauseGroup", "CloseLease", "CloseBid":
+				wt = (wt + 4) / 5
+			case "CreateDeployment":
+				if nDepActive < 4 {
+					wt *= 2
+				}
+			case "CreateLease", "CreateBid":
+				wt = wt * 3 / 2
+			}
 		}
 		out[i] = wt
 	}
